@@ -1,7 +1,7 @@
 """C05 - the site documents exactly the entities selected by the display options (selection half).  DESIGN.md section 6, C05."""
 from __future__ import annotations
 from harness.core import Task, OR, PROVED, REFUTED
-from contracts import display
+from contracts import display, tmpl_links
 from contracts.common import *
 
 PROP = "C05"
@@ -34,6 +34,23 @@ def bounded_task():
     return Task(f"{PROP}.Bd.pipeline", PROP, "real pipeline", run)
 
 
+def site_task():
+    def run():
+        import time
+        from bounded import c05
+        t0 = time.time()
+        hit = c05.site_cases()
+        r = OR(id=f"{PROP}.Bd.site.links_and_text_of_unselected_entities", status=REFUTED if hit else PROVED, kind="Bd", role="bounded", target="ford (full run)",
+               desc="complete sites for three projects (a separate module procedure with its implementation in a submodule; a public type extending a hidden one; a common block "
+                    "also used by a hidden procedure), default display: every link, including those written into popover attributes, leads to a written page, and the comment text "
+                    "of the unselected entities is in no page and not in the search index",
+               bound=f"{len(c05.SITE_CASES)} generated sites", cases=len(c05.SITE_CASES), seconds=time.time() - t0, backend="enumeration")
+        if hit:
+            r.replay, r.witness = hit, hit["input"]
+        return [r]
+    return Task(f"{PROP}.Bd.site", PROP, "full run", run)
+
+
 def build(tier, seed):
     set_tier(tier)
     tasks = [a_task(PROP, display.should_display), a_task(PROP, display.filter_display2),
@@ -41,7 +58,8 @@ def build(tier, seed):
              a_task(PROP, _with_search(display.prune_blockdata)), a_task(PROP, display.str_method), a_task(PROP, display.basenode_url_block),
              a_task(PROP, display.set_display),
              Task(f"{PROP}.S.EntitySettings", PROP, "ford.settings.EntitySettings.from_project_settings", lambda: display.entity_settings_default_display(PROP) + display.project_lists_follow_selection(PROP)),
-             bounded_task()]
+             Task(f"{PROP}.S.templates.entity_links", PROP, "ford/templates", lambda: tmpl_links.obligations(PROP, lambda name, line: __import__("bounded.c05", fromlist=["x"]).site_cases())),
+             bounded_task(), site_task()]
     meta = {
         "trusted_base": TRUSTED_BASE,
         "assumptions": PYVC_ASSUMPTIONS + [
